@@ -105,7 +105,7 @@ def _maybe_prelude(mod, shard, rec, force=False):
     """Odd-numbered shards first run the process-history medley of vlib/prelude.py (see there); a check module opts
     out with PRELUDE = False (C10/C11 compare with pristine forked children).  VERIF_PRELUDE=0/1 forces it off/on."""
     env = os.environ.get('VERIF_PRELUDE', '')
-    want = force or (env == '1') or (env != '0' and shard % 2 == 1)
+    want = force or (env in ('1', 'standing')) or (env != '0' and shard % 2 == 1)
     if not want or not getattr(mod, 'PRELUDE', True):
         return False
     from vlib import prelude
@@ -126,6 +126,10 @@ def _maybe_prelude(mod, shard, rec, force=False):
     _PRELUDE['ran'] = True
     rec.note('prelude_shards')
     rec.note('prelude_operations', n)
+    if (force == 'standing' or env == 'standing' or (shard % 4 == 3 and force is False)) and getattr(mod, 'STANDING_DEFAULTS', True):
+        prelude.standing_defaults()
+        _PRELUDE['ran'] = 'standing'
+        rec.note('standing_registered_defaults_shards')
     return True
 
 
@@ -471,7 +475,7 @@ def replay(mod, pid, path):
     part = {p.name: p for p in mod.PARTS}[data['part']]
     rec = Rec()
     if data.get('prelude'):
-        _maybe_prelude(mod, 1, rec, force=True)
+        _maybe_prelude(mod, 1, rec, force=data['prelude'])
     rec.begin()
     try:
         obs = part.judge(data['spec'], rec)
